@@ -382,6 +382,28 @@ Definition reference_general (ops : list op) (sni host_header : option bytes) : 
                  (if loopback_form n then match hs with [] => None | h :: _ => own (h_name h) end else None)))
   end.
 
+(** The administrative lookups, in terms of the configuration alone.
+    [clear_page(name, ..)] / [clear_file(name, ..)]: [""] and ["default"] mean the default host, any other
+    name the owner of exactly that name (no trailing dot, no default, no loopback rule). *)
+Definition is_default_name (name : bytes) : bool := beq name [] || beq name s_default.
+Definition clear_reference (ops : list op) (name : bytes) : option nat :=
+  let hs := map snd ops in
+  if is_default_name name then
+    match default_index O ops with
+    | Some d => match nth_error hs d with Some h => option_map hid (owner O hs (h_name h)) | None => None end
+    | None => None
+    end
+  else option_map hid (owner O hs name).
+(** [clear_response_caches(filter)] / [clear_file_caches(filter)] reach host [i] iff it is still reachable
+    under its own name (no later host took the name over) and its name passes the filter. *)
+Definition cleared_by_all (ops : list op) (flt : option bytes) (i : nat) : bool :=
+  match nth_error (map snd ops) i with
+  | Some h =>
+      match flt with Some f => beq f (h_name h) | None => true end
+      && match owner O (map snd ops) (h_name h) with Some r => Nat.eqb (hid r) i | None => false end
+  | None => false
+  end.
+
 (** ==============================================================================
     The multi-host server: a product of per-host states.  [serve i] is host [i]'s whole
     pipeline (extensions, file cache, response cache) on its own component; [route] is
@@ -760,6 +782,17 @@ Definition run_spec_query (ops : list op) (q : xval) : xval :=
                    else reference_general ops sni hdr in
           XL [XN k; x_ref r]
       | _, _ => bad_input
+      end
+  (* get_host: the owner of exactly this name; get_or_default: the reference resolver on the name;
+     get_default; clear_page / clear_file; clear_*_caches: the ids reached, ascending *)
+  | XL [XN 1; XB name] => XL [XN 1; x_ref (option_map hid (owner O (map snd ops) name))]
+  | XL [XN 2; XB name] => XL [XN 2; x_ref (reference_general ops (Some name) None)]
+  | XL [XN 3] => XL [XN 3; x_ref (reference_general ops None None)]
+  | XL [XN 4; XB name] => XL [XN 4; x_ref (clear_reference ops name)]
+  | XL [XN 5; f] =>
+      match d_option d_B f with
+      | Some f => XL [XN 5; x_list x_nat (List.filter (cleared_by_all ops f) (seq O (length ops)))]
+      | None => bad_input
       end
   | _ => XL []
   end.
